@@ -992,7 +992,8 @@ impl WmoWriter {
             0
         };
 
-        let total_size = 32 + vertices_size + tile_flags_size; // 32 bytes for header
+        // Header as written below: 4 u32 (type, flags, width-1, height-1) + 6 f32 (bounding box)
+        let total_size = 40 + vertices_size + tile_flags_size;
 
         let header = ChunkHeader {
             id: chunks::MLIQ,
